@@ -91,7 +91,13 @@ class BlockingDispatcher(H.DispatcherDouble):
         self.connectionCallbacks.onConnecting()
         w.on_connect(self, host)
         w.obs.append(("tcp-connect", self.index))
-        if w.connect_mode == "refused":
+        w.connects_this_event += 1
+        if w.connects_this_event > 6:
+            # a client that answers every refused connect with another connect would never come to rest
+            w.obs.append(("reconnect-storm", self.index))
+            self.closed = True
+            return
+        if w.connect_mode == "refused" or w.net_down:
             w.obs.append(("tcp-refused", self.index))
             self.closed = True
             self.connectionCallbacks.onConnectionError(IOError("connection refused"))
@@ -156,6 +162,8 @@ class LWorld(H.World):
         self.obs = []
         self.peer_close = {}
         self.connect_mode = "ok"
+        self.net_down = False
+        self.connects_this_event = 0
         self.cmd_connect = False
         self.stop = False
         from yowsup.layers.coder.encoder import WriteEncoder
@@ -227,7 +235,7 @@ class LWorld(H.World):
 EVENTS = [("connect", "ok"), ("connect", "refused"), ("success",), ("failure",), ("stream_error", "conflict"),
           ("stream_error", "ack"), ("stream_error", "xml-not-well-formed"), ("peer_close",), ("disconnect_req",),
           ("tick",), ("pong",), ("send",), ("late_socket_error",), ("disconnect_then_send",),
-          ("disconnect_then_connect",)]
+          ("disconnect_then_connect",), ("net_down",), ("net_up",)]
 
 
 class St(object):
@@ -283,6 +291,7 @@ def apply_event(s, ev):
     w, sc = s.w, s.sc
     kind = ev[0]
     i = current(w)
+    w.connects_this_event = 0
 
     def server_stanza(node):
         w.server_send(i, node)
@@ -316,6 +325,10 @@ def apply_event(s, ev):
         if ids:
             server_stanza(ProtocolTreeNode("iq", {"type": "result", "id": ids[0], "from": "s.whatsapp.net"}))
         sc.run_phase([], timeout=600)
+    elif kind == "net_down":
+        w.net_down = True        # from now on connection attempts fail (established connections are not affected)
+    elif kind == "net_up":
+        w.net_down = False
     elif kind == "late_socket_error":
         # a second error report of a dispatcher whose connection is already down (e.g. the reader and a writer
         # of the socket dispatcher both hit the closed socket)
@@ -392,6 +405,10 @@ def enabled(s, hist):
             continue
         if k == "late_socket_error" and (up or i < 0):
             continue
+        if k == "net_down" and (w.net_down or not up):
+            continue
+        if k == "net_up" and not w.net_down:
+            continue
         if k == "tick" and not (up and ping_thread_alive(s)):
             continue
         out.append(ev)
@@ -406,7 +423,7 @@ def canon(s):
             ping_thread_alive(s), w.queue.qsize(), is_up(w), r.phase if r is not None else None,
             len(outstanding_pings(w, i)) if i >= 0 else 0,
             bool(i >= 0 and any(n.tag == "success" for n in w.sent_by_server[i])),
-            tuple(sorted((t.name, t.wait_desc) for t in s.sc.blocked())), s.error is not None)
+            tuple(sorted((t.name, t.wait_desc) for t in s.sc.blocked())), s.error is not None, w.net_down)
 
 
 def check(s, hist, reconnect=True):
@@ -488,9 +505,9 @@ def check(s, hist, reconnect=True):
     for k, ev in enumerate(hist):
         seg = segs[k] if k < len(segs) else []
         if ev[0] in ("failure", "stream_error"):
-            tag = "failure" if ev[0] == "failure" else "stream:error"
+            stag = "failure" if ev[0] == "failure" else "stream:error"
             if not any(o[0] == "disconnect-called" for o in seg):
-                bad("%s-not-closed" % ev[0], "after <%s> the connection was not closed by the client" % tag, {"segment": seg})
+                bad("%s-not-closed" % ev[0], "after <%s> the connection was not closed by the client" % stag, {"segment": seg})
     n_fail = sum(1 for e in hist if e[0] == "failure")
     n_serr = sum(1 for e in hist if e[0] == "stream_error")
     if sum(1 for e in app if e[0] == "entity" and e[1] == "failure") != n_fail:
@@ -520,6 +537,14 @@ def check(s, hist, reconnect=True):
             # a reconnect pending from an earlier stream error whose close had not completed does not exist: every event is run to quiescence
             if any(o[0] == "tcp-connect" for o in seg) and ev[0] != "connect":
                 bad("reconnect-unexpected:%s" % ev[0], "the client reconnected by itself after %s" % ev[0], {"segment": seg})
+    if any(o[0] == "reconnect-storm" for o in w.obs):
+        bad("reconnect-storm", "the client kept reconnecting by itself after refused connection attempts")
+    for k, ev in enumerate(hist):
+        if ev[0] == "stream_error":
+            seg = segs[k] if k < len(segs) else []
+            n = sum(1 for o in seg if o[0] == "tcp-connect")
+            if n > 1:
+                bad("reconnect-repeated", "one stream error led to %d automatic connection attempts" % n, {"segment": seg})
     # ---- M8: keep-alive
     model_out = 0
     authed_now = False
